@@ -42,6 +42,7 @@ class Feat:
         self.excess_ops = 0.0      # operand items beyond the instruction's operand count
         self.any = 0.0             # the shipped @any macro as mnemonic / operand / deref value
         self.max_depth = 2
+        self.max_odepth = 2        # nesting depth of operand-level groups
         self.max_spine = 4
         self.__dict__.update(kw)
 
@@ -136,7 +137,10 @@ class RuleGen:
         if c is not None:
             d["constant_multiplier"] = const(c)
         if self.rng.random() < 0.25:
-            d["main_reg"] = [{"$or": self.shuffled([d["main_reg"], self.rng.choice(["rsp", "%rbp", "rdi", "%r9"])])}]
+            alts = [d["main_reg"], self.rng.choice(["rsp", "%rbp", "rdi", "%r9"])]
+            if self.rng.random() < 0.35:
+                alts = [{"$or": [alts[0], "%r15"]}, alts[1]]        # an operator nested in the field's operator
+            d["main_reg"] = [{"$or": self.shuffled(alts)}]
         for fld in ("constant_offset", "register_multiplier", "constant_multiplier"):
             if fld in d and self.rng.random() < self.feat.any:
                 d[fld] = "@any"
@@ -151,7 +155,7 @@ class RuleGen:
 
     def new_cap(self, prefix="c") -> str:
         self.ncap += 1
-        return f"&{prefix}{self.ncap}"
+        return f"&{prefix}{self.ncap}" + self.rng.choice(["", "", "", "X", "-Tmp"])
 
     def operand_node(self, field: str, depth=0):
         f, rng = self.feat, self.rng
@@ -174,7 +178,7 @@ class RuleGen:
                 return n
             if self.ocaps and rng.random() < 0.2:
                 return rng.choice(self.ocaps)[0]  # near miss: a capture bound to other text
-        if depth < 1 and rng.random() < f.ogroups:
+        if depth < f.max_odepth and rng.random() < (f.ogroups if depth == 0 else 0.35):
             kind = rng.choice(["$or", "$or", "$and"])
             saved, self.allow_def = self.allow_def, False
             good = self.operand_node(field, depth + 1)
@@ -183,6 +187,8 @@ class RuleGen:
                 return None
             if kind == "$or":
                 alts = [good] + [self.decoy_operand() for _ in range(rng.randint(1, 2))]
+                if rng.random() < 0.25:
+                    alts.append({"$and": [self.decoy_operand()]})
                 return {"$or": self.shuffled(alts)}
             return {"$and": [good]}
         if depth < 1 and rng.random() < f.onots:
@@ -195,6 +201,8 @@ class RuleGen:
                 d = {"$or": self.shuffled([d, self.decoy_operand()] + ([self.decoy_operand()] if rng.random() < 0.4 else []))}
             elif r2 < 0.45:
                 d = {"$and": [d]}
+            elif r2 < 0.57:
+                d = {"$not": [d]}
             return {"$not": [d]}
         return self.op_name(field)
 
@@ -226,7 +234,7 @@ class RuleGen:
         if same and rng.random() < 0.75:
             return rng.choice(same) + suffix(w)
         if self.allow_def and rng.random() < 0.7:
-            base = prefix + rng.choice(["", "-1", "-2", "_a"])
+            base = prefix + rng.choice(["", "-1", "-2", "_a", "-Acc", "_B", "-Ptr2"])
             if any(b == base for b, _, _ in self.regcaps):
                 return None
             self.regcaps.append((base, fam, letter))
@@ -370,6 +378,8 @@ class RuleGen:
                 used = good[1]
             else:
                 k = rng.randint(2, min(3 if kind == "$and" else 4, left)) if left >= 2 else 1
+                if rng.random() < 0.12:
+                    k = 1          # a group around a single element (with or without times) is legal too
                 seq = self.seq_for(idx, k, depth + 1)
                 if not seq:
                     return None
@@ -389,6 +399,8 @@ class RuleGen:
                 x = {"$and": [x, self.decoy_item()]}
             elif r3 < 0.45:
                 x = {"$or": self.shuffled([x, self.decoy_item()])}
+            elif r3 < 0.57:
+                x = {"$not": [x]}          # a negation of a negation: matches one instruction at which x DOES match
             node = {"$not": [x]}
             if rng.random() < f.group_times:
                 node["times"] = self.times_value(1)
@@ -538,6 +550,11 @@ def mutate_listing(rng: random.Random, insts: List[SInst], lo: int, hi: int):
         return out, "none"
     i = rng.randint(max(0, lo), min(len(out) - 1, max(lo, hi)))
     r = rng.random()
+    if r < 0.12 and i + 1 < len(out):
+        a, b = out[i], out[i + 1]
+        (a.mnem, a.ops, a.annotation, a.comment), (b.mnem, b.ops, b.annotation, b.comment) = \
+            (b.mnem, b.ops, b.annotation, b.comment), (a.mnem, a.ops, a.annotation, a.comment)
+        return out, f"swap instructions #{i},#{i + 1}"
     if r < 0.3:
         m, ops = rand_inst_body(rng)
         if ops == ["@target"]:
